@@ -89,6 +89,9 @@ class Driver:
             for i in vecs + tabs:
                 for op in ("copy", "slice01", "sliceall", "mask", "idxvec", "T", "add1", "sort"):
                     ev.append((op, i))
+            for i in vecs:
+                for op in ("fillna", "dropna", "cast", "to_object", "unique", "lshift_empty", "lshift_list", "rlshift_empty", "neg"):
+                    ev.append((op, i))
             for t in tabs:
                 ncol = len(sl[t].obj._underlying)
                 for c in range(min(ncol, 2)):
@@ -228,6 +231,27 @@ class Driver:
                     r = x.sort_by(x._underlying[0]) if is_table(x) else x.sort_by()
                 if r is None:
                     raise Disabled()
+                return add_any(r)
+            if op in ("fillna", "dropna", "cast", "to_object", "unique", "lshift_empty", "lshift_list", "rlshift_empty", "neg"):
+                x = sl[ev[1]].obj
+                if op == "fillna":
+                    r = x.fillna(0)
+                elif op == "dropna":
+                    r = x.dropna()
+                elif op == "cast":
+                    r = x.cast(float)
+                elif op == "to_object":
+                    r = x.to_object()
+                elif op == "unique":
+                    r = x.unique()
+                elif op == "lshift_empty":
+                    r = x << []
+                elif op == "lshift_list":
+                    r = x << [val()]
+                elif op == "rlshift_empty":
+                    r = [] << x
+                else:
+                    r = -x
                 return add_any(r)
             if op in ("getcol_item", "getcol_attr", "getcol_cols"):
                 t = sl[ev[1]]
